@@ -339,15 +339,38 @@ func (n *Net) RoundTrip(req *http.Request) (*http.Response, error) {
 	wire := rbuf.Bytes()
 	cut := -1
 	if len(body) > 0 && n.fault(call, e, n.faults.RespTrunc, "resp-trunc") {
-		cut = len(wire) - 1 - kern.Choose(len(body), "trunc-at")
+		// how many body bytes still arrive: anywhere, or (biased) at the boundaries — none at all although the
+		// head announced a length, one, or all but the last
+		keep := 0
+		switch kern.Choose(4, "trunc-kind") {
+		case 0:
+			keep = len(body) - 1 - kern.Choose(len(body), "trunc-at")
+		case 1:
+			keep = 0
+		case 2:
+			keep = len(body) - 1
+		case 3:
+			if len(body) > 1 {
+				keep = 1
+			}
+		}
+		cut = len(wire) - len(body) + keep
 	}
 	fr := &fragReader{data: wire, frag: true, cutAt: cut}
 	res, err := http.ReadResponse(bufio.NewReader(fr), req)
 	if err != nil {
 		return nil, &netError{"sim: malformed response: " + err.Error()}
 	}
+	res.Body = &transportBody{res.Body}
 	return res, nil
 }
+
+// transportBody closes the way http.Transport's response bodies do: closing a body that was not read to its end
+// (or whose connection died) gives the connection up and reports nothing — net/http's own body would try to drain
+// the rest and hand the read error to the caller of Close, which no client of a real transport ever sees.
+type transportBody struct{ io.ReadCloser }
+
+func (b *transportBody) Close() error { _ = b.ReadCloser.Close(); return nil }
 
 //go:norace
 func (n *Net) slotDone(s *slot) bool { return len(s.out) > 0 }
